@@ -8,6 +8,7 @@ import signal
 
 import dns.exception
 import dns.name
+import dns.tokenizer
 
 from harness.core import Ctx, enc_labels, hx
 
@@ -163,6 +164,33 @@ def eval_case(ctx: Ctx, c: dict):
         elif exp is None and not r.startswith("err NameTooLong") and not r.startswith("err LabelTooLong") and not r.startswith("err EmptyLabel"):
             ctx.fail("C01/text-roundtrip/overlong-accepted", f"{labels!r}+{origin!r} -> {r}", rep)
         ctx.count("text." + ("abs" if n.is_absolute() else "rel") + ("+origin" if origin is not None else ""))
+        # the zone-file path into from_text: the printed name is one identifier token, and
+        # Tokenizer.get_name(origin, relativize, relativize_to) is from_text + choose_relativity
+        rel = bool(c.get("rel"))
+        rt = None if c.get("rt") is None else [bytes.fromhex(x) for x in c["rt"]]
+        RT = None if rt is None else dns.name.Name(rt)
+        tr, tv = outcome(lambda: dns.tokenizer.Tokenizer(text + " tail").get_name(o, rel, RT), lambda x: enc_labels(x.labels))
+        if tr.startswith("FOREIGN"):
+            ctx.fail("C01/tokenizer.get_name/foreign-exception:" + tr.split(" ")[1], f"Tokenizer({text!r}).get_name -> {tr}", rep)
+        elif exp is not None:
+            full = labels if (origin is None or n.is_absolute()) else labels + origin
+            base = rt if rt is not None else origin
+            want = full
+            if base:  # `if origin:` — an empty name is falsy
+                low = lambda ls_: [x.lower() for x in ls_]
+                isabs = lambda ls_: bool(ls_) and ls_[-1] == b""
+                if rel:
+                    # relativize: strip when the name is a subdomain (fullcompare: same relativity, suffix match up to case)
+                    if isabs(full) == isabs(base) and len(full) >= len(base) and low(full[len(full) - len(base):]) == low(base):
+                        want = full[:len(full) - len(base)]
+                elif not isabs(full):
+                    want = full + base if wf(full + base) else None
+            if want is not None and tr != "ok " + enc_labels(want):
+                ctx.fail("C01/tokenizer.get_name/value-differs",
+                         f"Tokenizer({text!r}).get_name(origin={origin!r}, relativize={rel}, relativize_to={rt!r}) -> {tr}, expected {want!r}", rep)
+            elif want is None and tr.startswith("ok"):
+                ctx.fail("C01/tokenizer.get_name/overlong-accepted", f"Tokenizer({text!r}).get_name(origin={origin!r}, relativize_to={rt!r}) -> {tr}", rep)
+            ctx.count("text.tokenizer." + ("rel" if rel else "abs") + ("+rt" if rt is not None else ""))
     elif k == "fromtext":
         text = bytes.fromhex(c["text"]).decode("ascii")
         origin = None if c["origin"] is None else [bytes.fromhex(x) for x in c["origin"]]
@@ -435,7 +463,14 @@ def generate(ctx: Ctx, scale: int, rng):
         origin = None
         if rng.chance(1, 2):
             origin = gen_labels(rng, absolute=rng.chance(5, 6))
-        c = {"kind": "text", "labels": hexl(ls), "origin": None if origin is None else hexl(origin)}
+        c = {"kind": "text", "labels": hexl(ls), "origin": None if origin is None else hexl(origin), "rel": rng.below(2)}
+        if rng.chance(1, 3):
+            # relativize_to: a suffix of name(+origin), the origin with another case, or something unrelated
+            full = ls if (ls and ls[-1] == b"") else ls + (origin or [])
+            m = rng.below(3)
+            rt = full[rng.below(len(full)):] if (m == 0 and full) else ([bytes(x).swapcase() for x in (origin or full)] if m == 1 else gen_labels(rng, absolute=True, budget=30))
+            if rt and rt[-1] == b"" and wf(rt):
+                c["rt"] = hexl(rt)
         ctx.case(("text", tuple(ls), None if origin is None else tuple(origin)), sample=c)
         eval_case(ctx, c)
     for _ in range(n(1500)):
@@ -528,7 +563,7 @@ def run(ctx: Ctx):
         ctx.case(("corpus", p), sample=None)
         eval_case(ctx, c)
         ctx.count("corpus")
-    generate(ctx, 1 if ctx.tier == "quick" else 20, ctx.rng)
+    generate(ctx, 5 if ctx.tier == "quick" else 40, ctx.rng)
 
 
 def search(ctx: Ctx):
@@ -536,7 +571,7 @@ def search(ctx: Ctx):
     for m in ctx.mismatches[:50]:
         if m.case is not None:
             eval_case(ctx, m.case)
-    generate(ctx, 4 if ctx.tier == "quick" else 40, ctx.rng.fork(7))
+    generate(ctx, 10 if ctx.tier == "quick" else 60, ctx.rng.fork(7))
 
 
 def replay(ctx: Ctx, obj: dict):
